@@ -142,6 +142,19 @@ CLAIMED = {
              'closed forms; known finding F22: a primal-and-dual infeasible problem is reported as unbounded (ECOS flag 2).',
         technique='Lean 4 proof (decide over a table regenerated by executing the source; induction over solve histories) + correspondence check',
         design_ref='DESIGN.md 4/C09'),
+    'C08': dict(
+        text='Theorems about wirings (the normal form of an affine array operator: each output cell a linear combination of input '
+             'cells plus a constant) over affine forms: naturality w.r.t. evaluation for EVERY assignment, composition, hence '
+             'naturality of every straight-line program; normal forms are preserved; introspection = support of the value function; '
+             'the equivalence test is sound and complete on affine cells. Tied to the code by random straight-line programs over '
+             '44 operators: the wiring of every step is EXTRACTED from numpy by running the same numpy function on probe objects '
+             '(validated on floats), the model applies it to the canonical affine forms of the real inputs, and the result is '
+             'compared exactly with the real Expression; values under random assignments are compared with numpy; nonlinear '
+             'operators with repeated / constant arguments against their definitions; are_equivalent on fixed pairs.',
+        note='numpy\'s array algorithms are modelled, not verified (their wirings are extracted per run); scalar-level arithmetic with '
+             'numpy scalar types outside __REAL_TYPES__ raises and is not claimed.',
+        technique='Lean 4 proof (linear-algebraic naturality over Lin) + wiring extraction from numpy + correspondence check',
+        design_ref='DESIGN.md 4/C08'),
 }
 
 NOT_YET = 'check not built yet in this session (planned, see DESIGN.md section 6); not claimed until its theorems and correspondence exist'
